@@ -166,6 +166,7 @@ class Run:
             self.env.pop(k, None)
         self.log = []      # (argv, rc, stderr-tail) of wrapped commands
         self.panics = 0
+        self.last_ckpt = None
         self.blame_failed = 0
         self.plain(["init", "-q", "-b", "main", "."])
         self.plain(["config", "user.email", "dev@example.invalid"])
@@ -310,8 +311,8 @@ class Run:
         return os.path.join(self.repo, ".git", "ai")
 
     def proj_wl_ini(self):
-        empty_ent = {"has": False, "snap": [], "attr": [], "va": [], "vaset": False, "touched": False}
-        wl = [{"ent": {f: dict(empty_ent) for f in self.files}, "ai": False, "sess": []} for _ in range(self.maxc + 1)]
+        empty_ent = {"has": False, "snap": [], "attr": [], "va": [], "vaset": False, "touched": False, "by": []}
+        wl = [{"ent": {f: dict(empty_ent) for f in self.files}} for _ in range(self.maxc + 1)]
         ini = [{f: [] for f in self.files} for _ in range(self.maxc + 1)]
         wdir = os.path.join(self.ai_dir(), "working_logs")
         extra = []
@@ -336,17 +337,15 @@ class Run:
                             except ValueError:
                                 continue
                             is_ai = ck.get("kind") in ("AiAgent", "AiTab")
-                            if is_ai:
-                                wl[b]["ai"] = True
-                                sid = self._author(short_hash_of(ck.get("agent_id") or {}))
-                                if sid not in wl[b]["sess"]:
-                                    wl[b]["sess"] = sorted(wl[b]["sess"] + [sid])
+                            sid = self._author(short_hash_of(ck.get("agent_id") or {})) if is_ai else None
                             for e in ck.get("entries", []):
                                 f = self.world.model_file(e["file"])
                                 if f is None:
                                     continue
                                 ent = wl[b]["ent"][f]
                                 ent["has"] = True
+                                if sid is not None and sid not in ent["by"]:
+                                    ent["by"] = sorted(ent["by"] + [sid])
                                 blob = os.path.join(d, "blobs", e["blob_sha"])
                                 data = open(blob, "rb").read() if os.path.isfile(blob) else None
                                 ent["snap"] = self.world.parse(data)
@@ -506,6 +505,7 @@ class Run:
         self.write(f, new)
 
     def act_Ckpt(self, act):
+        self.last_ckpt = act
         paths = [self.world.path(f) for f in sorted(act["files"])]
         if act["kind"] == "ai":
             payload = {"type": "ai_agent", "repo_working_dir": self.repo, "edited_filepaths": paths,
@@ -550,6 +550,38 @@ class Run:
                     self.wrapped(["add", "--", self.world.path(f)])
             self.wrapped(["commit", "-q", "-m", "c", "--"] + paths)
         self._register_new_commits("commit")
+
+
+    def act_ReadOnly(self, act):
+        cmd = {"status": ["status", "--short"], "log": ["log", "--oneline", "-n", "3"],
+               "diff": ["diff", "--stat"]}[act["cmd"]]
+        self.wrapped(cmd)
+
+    def act_CkptRepeat(self, act):
+        if self.last_ckpt is not None:
+            self.act_Ckpt(self.last_ckpt)
+
+    def act_ResetHard(self, act):
+        self.wrapped(["reset", "-q", "--hard", self.c2sha[act["target"]]])
+
+    def act_ResetKeep(self, act):
+        self.wrapped(["reset", "-q", "--" + act["mode"], self.c2sha[act["target"]]])
+
+    def act_Discard(self, act):
+        paths = [self.world.path(f) for f in sorted(act["files"])]
+        if act["how"] == "checkout":
+            self.wrapped(["checkout", "-q", "--"] + paths)
+        else:
+            self.wrapped(["restore", "--"] + paths)
+
+    def act_StashPush(self, act):
+        self.wrapped(["stash", "push", "-q"])
+
+    def act_StashPop(self, act):
+        self.wrapped(["stash", "pop", "-q"])
+
+
+Run.do = lambda self, act: getattr(self, "act_" + act["a"])(act)
 
 
 def execute(gitai, scratch, cfg, behaviour, run_id):
